@@ -47,17 +47,51 @@ def check_case(rep, case, name):
             if not relclose(d, e2, 5e-4): rep.dev(name, dict(case, rs=[x]), 'deriv2(%r)=%r' % (x, d), e2); return
         rep.ok(3)
 
+def spline_cases(rep, rng, n):
+    """splined potentials (exponential spline between two forms, API and spline() modifier; buck4): the offered derivatives against
+    difference quotients of the energy the same callable returns, strictly inside each region. End potentials that are NEGATIVE at the attach
+    point are included (the exponential spline then works on translated data)."""
+    from atsim.potentials.spline import SplinePotential
+    fixed = [(('zbl', [8, 8]), ('buck', [500.0, 0.25, 100.0]), 0.8, 2.0), (('bornmayer', [2000.0, 0.25]), ('buck', [1000.0, 0.3, 100.0]), 1.0, 2.0),
+             (('zbl', [40, 8]), ('buck', [1200.0, 0.3, 0.0]), 0.5, 1.4), (('bornmayer', [900.0, 0.3]), ('zero', []), 1.1, 2.3)]
+    for _ in range(n):
+        fixed.append((('zbl', [rng.randint(3, 60), rng.randint(3, 60)]), ('buck', [round(rng.uniform(300, 3000), 1), round(rng.uniform(0.22, 0.38), 3), rng.choice([0.0, round(rng.uniform(20, 200), 1)])]),
+                      round(rng.uniform(0.4, 1.0), 2), round(rng.uniform(1.6, 2.8), 2)))
+    def d5(g, x, h): return (g(x - 2 * h) - 8 * g(x - h) + 8 * g(x + h) - g(x + 2 * h)) / (12 * h)
+    for (sn, sp_), (en, ep), d, a in fixed:
+        for route in ('api', 'config'):
+            case = dict(kind='spline', route=route, start=[sn, sp_], end=[en, ep], detach=d, attach=a); rep.case('spline/' + route, case)
+            try:
+                if route == 'api': f = SplinePotential(getattr(pf, sn)(*sp_), getattr(pf, en)(*ep), d, a)
+                else: f = from_config('spline(>0 %s >=%r exp_spline >=%r %s)' % (to_config(('leaf', sn, sp_)), d, a, to_config(('leaf', en, ep))))
+            except Exception as e:
+                rep.dev('spline', case, 'exception %r' % (e,), 'a splined potential'); continue
+            h = 1e-4; bad = None
+            for x in [d * 0.8, d + 0.1 * (a - d), d + 0.37 * (a - d), (d + a) / 2, a - 0.1 * (a - d), a + 0.3, a + 1.1]:
+                try:
+                    if hasattr(f, 'deriv'):
+                        g1, w1 = f.deriv(x), d5(f, x, h)
+                        if abs(g1 - w1) > 1e-6 * max(1.0, abs(w1)): bad = ('deriv', x, g1, w1); break
+                    if hasattr(f, 'deriv2'):
+                        g2, w2 = f.deriv2(x), d5(f.deriv, x, h)
+                        if abs(g2 - w2) > 1e-6 * max(1.0, abs(w2)): bad = ('deriv2', x, g2, w2); break
+                except Exception as e: bad = ('evaluation', x, repr(e), 'a value'); break
+            if bad: rep.dev('spline-%s-%s' % (sn, en), dict(case, rs=[bad[1]]), '%s(%r)=%r' % bad[:3], 'difference quotient of the energy/derivative the callable returns: %r' % (bad[3],))
+            else: rep.ok(14)
+
 def gen_case(rng):
     t = gen(rng, rng.randint(0, 3))
     return dict(route=rng.choice(['api', 'config']), tree=t, rs=[round(rng.uniform(0.6, 6.0), 3) for _ in range(4)] + [0.25, 1.0, 2.0, round(rng.uniform(6.0, 30.0), 2)])
 
 if __name__ == '__main__':
     pl = payload(); rep = Report('C07')
-    if pl.get('mode') == 'replay': rep.case('replay', pl['input']); check_case(rep, pl['input'], 'replay')
+    if pl.get('mode') == 'replay' and pl['input'].get('kind') == 'spline': spline_cases(rep, random.Random(pl.get('seed', 0)), 2)
+    elif pl.get('mode') == 'replay': rep.case('replay', pl['input']); check_case(rep, pl['input'], 'replay')
     else:
         rng = random.Random(pl.get('seed', 0))
         for name in sorted(LEAVES):      # every built-in form once
             c = dict(route='api', tree=('leaf', name, [rnd(p) for p in LEAVES[name][0](rng)]), rs=[0.0, 0.7, 1.3, 2.9, 5.5, 12.0, 21.0, 29.5]); rep.case('leaf', c); check_case(rep, c, 'leaf-' + name)
+        spline_cases(rep, rng, max(2, pl.get('n', 30) // 6))
         for i in range(pl.get('n', 30)):
             c = gen_case(rng); rep.case(c['route'], c); check_case(rep, c, 'seeded-%d' % i)
     rep.finish()
